@@ -84,6 +84,13 @@ func (f *FaultStore) StoreLogs(ls []*raft.Log) error {
 	return f.LogStore.StoreLogs(ls)
 }
 
+// FailNextStore makes the next StoreLogs fail with err (nothing is stored).
+func (f *FaultStore) FailNextStore(err error) {
+	f.mu.Lock()
+	f.FailStore = err
+	f.mu.Unlock()
+}
+
 func (f *FaultStore) StoreLog(l *raft.Log) error { return f.StoreLogs([]*raft.Log{l}) }
 
 func (f *FaultStore) SetCorrupt(i uint64, m func(*raft.Log)) {
@@ -305,9 +312,15 @@ func (c *Cluster) injectFail(ni int) bool {
 func cpKey(end, term uint64) string { return fmt.Sprintf("%d/%d", end, term) }
 
 func NewCluster(rng *rand.Rand, n int) *Cluster {
+	return NewClusterOver(rng, n, func() raft.LogStore { return raft.NewInmemStore() })
+}
+
+// NewClusterOver builds a cluster whose nodes keep their logs in stores made by mk
+// (e.g. real WALs instead of raft.InmemStore).
+func NewClusterOver(rng *rand.Rand, n int, mk func() raft.LogStore) *Cluster {
 	c := &Cluster{Rng: rng, Term: 1, CPs: map[string]*CPRange{}}
 	for i := 0; i < n; i++ {
-		c.Nodes = append(c.Nodes, NewNode(fmt.Sprintf("n%d", i), raft.NewInmemStore()))
+		c.Nodes = append(c.Nodes, NewNode(fmt.Sprintf("n%d", i), mk()))
 	}
 	return c
 }
